@@ -53,6 +53,14 @@ func (m *C03) AfterTx(e *eng.Engine, t *eng.TxRec) {
 	// purchases of third-party orders, from the pre-state order table
 	bought := map[sb]*big.Rat{}
 	paidDenom := map[string]map[string]bool{}
+	owed := map[[2]string]*big.Rat{} // (seller, ask denom) → Σ quantity × ask × (1 − seller fee rate)
+	owedFills := map[[2]string]int{}
+	sf := new(big.Rat)
+	if pre.FeeParams != nil {
+		if r, err := ref.DecOrZero(pre.FeeParams.SellerPercentageFee); err == nil {
+			sf = r
+		}
+	}
 	poolOut := map[string]*big.Int{}
 	for _, msg := range t.Msgs {
 		switch x := msg.(type) {
@@ -76,6 +84,16 @@ func (m *C03) AfterTx(e *eng.Engine, t *eng.TxRec) {
 						paidDenom[k.seller] = map[string]bool{}
 					}
 					paidDenom[k.seller][mk.BankDenom] = true
+					if ask, ok := new(big.Int).SetString(so.AskAmount, 10); ok {
+						kk := [2]string{k.seller, mk.BankDenom}
+						if owed[kk] == nil {
+							owed[kk] = new(big.Rat)
+						}
+						pay := new(big.Rat).Mul(q, new(big.Rat).SetInt(ask))
+						pay.Mul(pay, new(big.Rat).Sub(big.NewRat(1, 1), sf))
+						owed[kk].Add(owed[kk], pay)
+						owedFills[kk]++
+					}
 				}
 			}
 		case *markettypes.MsgGovSendFromFeePool:
@@ -147,6 +165,18 @@ func (m *C03) AfterTx(e *eng.Engine, t *eng.TxRec) {
 			if t.Post.BankOf(s, d).Cmp(t.Pre.BankOf(s, d)) < 0 {
 				e.Violate("C03", "seller-not-paid", fmt.Sprintf("%s: seller %s balance in %s decreased", where, s, d))
 			}
+		}
+	}
+	// ... and is paid what the fills owe it, in the ask denomination (within one base unit per fill)
+	for kk, want := range owed {
+		if t.Signers[kk[0]] {
+			continue
+		}
+		got := new(big.Int).Sub(t.Post.BankOf(kk[0], kk[1]), t.Pre.BankOf(kk[0], kk[1]))
+		d := new(big.Rat).Sub(new(big.Rat).SetInt(got), want)
+		d.Abs(d)
+		if d.Cmp(big.NewRat(int64(owedFills[kk]), 1)) > 0 {
+			e.Violate("C03", "seller-not-paid-in-ask-denom", fmt.Sprintf("%s: seller %s lost escrowed credits to a purchase and received %s %s, the fills owe it %s %s", where, kk[0], got, kk[1], rs(want), kk[1]))
 		}
 	}
 	// non-trivial: >=3 third parties held something in a touched batch or denom
